@@ -176,9 +176,18 @@ def build_driver(profile="dev"):
     return os.path.join(HARNESS, "target", "release" if profile == "release" else "debug", "bsvdrv"), out
 
 
+def proc_cpu_seconds(pid):
+    try:
+        f = open("/proc/%d/stat" % pid).read()
+        rest = f[f.rindex(")") + 2:].split()
+        return (int(rest[11]) + int(rest[12])) / float(os.sysconf("SC_CLK_TCK"))
+    except (OSError, ValueError, IndexError):
+        return None
+
+
 def driver_eval(binary, cases, workdir, tag="cases", timeout=1800, stall=None):
     """returns list of (out, peak) with out in {OK:..., ERR, PANIC, ABORT, HANG, ...}.
-    A case that makes the process die is ABORT; a case on which the driver makes no progress for `stall` seconds
+    A case that makes the process die is ABORT; a case on which the driver spends `stall` seconds of CPU time (or 10x that in wall time) without finishing
     (non-termination) is HANG: the driver is killed and restarted at the next case."""
     if stall is None:
         stall = int(os.environ.get("VERIF_STALL", "60"))
@@ -191,6 +200,7 @@ def driver_eval(binary, cases, workdir, tag="cases", timeout=1800, stall=None):
         os.remove(rf)
     results = [None] * len(cases)
     start = 0
+    hangs = 0
     t0 = time.time()
 
     def absorb():
@@ -211,7 +221,8 @@ def driver_eval(binary, cases, workdir, tag="cases", timeout=1800, stall=None):
 
     while start < len(cases):
         proc = subprocess.Popen("ulimit -v 8000000 2>/dev/null; ulimit -s 8192; exec %s %s %s %d > /dev/null 2>&1" % (binary, cf, rf, start), shell=True)
-        last_size, last_change, hung = -1, time.time(), False
+        last_size, last_change, hung, last_cpu = -1, time.time(), False, 0.0
+        eff = stall if hangs < 3 else max(5, stall // 10)   # the run already fails after three hangs: finish it quickly
         while True:
             try:
                 proc.wait(timeout=1.0)
@@ -220,9 +231,12 @@ def driver_eval(binary, cases, workdir, tag="cases", timeout=1800, stall=None):
                 pass
             size = os.path.getsize(rf) if os.path.exists(rf) else 0
             now = time.time()
+            cpu = proc_cpu_seconds(proc.pid)
             if size != last_size:
-                last_size, last_change = size, now
-            elif now - last_change > stall:
+                last_size, last_change, last_cpu = size, now, cpu
+            elif (cpu is not None and last_cpu is not None and cpu - last_cpu > eff) or now - last_change > 10 * eff:
+                # `stall` seconds of CPU time (not wall time: a loaded machine must not look like a hang) spent on one
+                # case without finishing it, or ten times that in wall time for a process that is not even running
                 proc.kill(); proc.wait(); hung = True
                 break
             if now - t0 > timeout:
@@ -233,6 +247,7 @@ def driver_eval(binary, cases, workdir, tag="cases", timeout=1800, stall=None):
         if nxt >= len(cases):
             break
         results[nxt] = ("HANG" if hung else "ABORT", 0)
+        hangs += 1 if hung else 0
         start = nxt + 1
     return results
 
